@@ -133,6 +133,14 @@ func Connect(a, b *Node) {
 	b.Retr.AddRemote(a)
 }
 
+// ConnectReplacing connects a long-lived source node with a fresh node under test that
+// reuses an overlay address: the source forgets the previous node with that address.
+func ConnectReplacing(src, n *Node) {
+	src.Rec.SetPeer(n.Addr, n.CI.Protocol())
+	n.Rec.AddPeer(src.Addr, src.CI.Protocol())
+	n.Retr.AddRemote(src)
+}
+
 // ---- HTTP helpers ---------------------------------------------------------------------
 
 func (n *Node) do(req *http.Request) *httptest.ResponseRecorder {
